@@ -86,6 +86,11 @@ def check(case):
     batch = V[case["batch"]].clone()
     for ai, A in enumerate(regions):
         forms = [fmt_region(A, (ai + case["fmt"]) % 3)]
+        if len(A) >= 2:
+            # a region is a SET of sites: the order in which the caller lists them (descending, rotated) is immaterial
+            forms.append(fmt_region(list(reversed(A)), (ai + case["fmt"] + 1) % 3))
+            if len(A) >= 3:
+                forms.append(fmt_region(A[1:] + A[:1], (ai + case["fmt"] + 2) % 3))
         if len(A) == 1:
             forms.append(int(A[0]))          # a bare site index given to the constructor
             forms.append(int(A[0]))          # ... and assigned to the public attribute afterwards (handled below: the LAST form)
@@ -100,13 +105,17 @@ def check(case):
                 e1[:, a], e2[:, a] = b2[:, a], b1[:, a]
             require(torch.equal(r1, e1) and torch.equal(r2, e2), "swap-helper", f"swap(s1, s2, A) with A={form!r} did not exchange exactly region A between the two replicas")
             obs = SWAP(form)
-            if len(forms) > 2 and fi == len(forms) - 1:
+            if len(A) == 1 and fi == len(forms) - 1:
                 obs = SWAP(list(range(n)))
                 obs.A = form                    # the region is a plain public attribute
             held = []
             Fm = torch.zeros(D, D, dtype=torch.double)
+            done = torch.zeros(D, D, dtype=torch.bool)
             for i in range(D):
                 for j in range(D):
+                    if fi >= 1 and len(A) >= 2 and (i + 2 * j + ai + fi) % 3:
+                        continue              # the re-ordered forms of a region are evaluated on a third of the pairs
+                    done[i, j] = True
                     two = torch.stack([V[i], V[j]])
                     keep = two.clone()
                     out = obs.apply(state, two)
@@ -136,7 +145,7 @@ def check(case):
             if F is None:
                 F = Fm
             else:
-                require(bool(torch.all((F - Fm).abs() <= 1e-12 * (1 + F.abs()))), "region-format", f"region {A} given as int differs from the same region given as a sequence")
+                require(bool(torch.all(((F - Fm).abs() <= 1e-12 * (1 + F.abs())) | ~done)), "region-format", f"region {A} given in another form (bare int / other order of the sites: {form!r}) differs from the same region given as an ascending sequence")
         est = float(p @ F @ p)
         ref = float(torch.trace(torch.linalg.matrix_power(R.partial_trace(rho, n, A), 2)).real) if A else 1.0
         if len(A) == n:
